@@ -7,6 +7,9 @@ package c06
 import (
 	"context"
 	"fmt"
+	"os"
+	"path/filepath"
+	"strings"
 	"sync"
 	"testing"
 	"time"
@@ -19,7 +22,10 @@ import (
 
 const rule = "A: histories over {event, raw write, step} from a generated occupancy (empty..full) for every policy, plus (thorough) every history of length <= 6 from a full buffer; B: randomised multi-producer schedules; non-trivial = the history overflows the buffer at least once, i.e. the three policies keep different survivors; distinct by (policy, history)"
 
-func init() { vk.InitAsyncNames("_c06_t", "c06h") }
+func init() {
+	vk.InitAsyncNames("_c06_t", "c06h")
+	c06Handle = log.GetLogger("c06h") // the same handle object (a name yields one handle)
+}
 
 func actionString(a []vk.AsyncAction) string {
 	s := ""
@@ -283,7 +289,12 @@ func TestC06_RollingAsyncPolicy(t *testing.T) {
 		}
 		done, p := vk.Within(20*time.Second, func() {
 			for i := 0; i < n; i++ {
-				log.Warn(context.Background(), tagRoll, log.Int("id", i))
+				if i%4 == 3 {
+					// raw writes of the same producer go through the same queue as its events
+					_, _ = asyncHandleWrite([]byte(fmt.Sprintf("id=%d\n", i)))
+				} else {
+					log.Warn(context.Background(), tagRoll, log.Int("id", i))
+				}
 			}
 		})
 		vk.Eval()
@@ -301,5 +312,26 @@ func TestC06_RollingAsyncPolicy(t *testing.T) {
 		if d, _ := vk.Within(30*time.Second, log.Destroy); !d {
 			vk.HardFail("c06-hang", map[string]any{"policy": policy}, "C06: Destroy did not return after the gate opened")
 		}
+		// per-producer order: whatever survived the policy appears in submission order in each file
+		ents, _ := os.ReadDir(base)
+		for _, e := range ents {
+			b, _ := os.ReadFile(filepath.Join(base, e.Name()))
+			last := int64(-1)
+			for _, ln := range strings.Split(string(b), "\n") {
+				if ln == "" {
+					continue
+				}
+				id := vk.IDFromLine([]byte(ln))
+				if id <= last {
+					t.Fatalf("VERIF-VIOLATION C06: rolling-file logger (async, %s): in %s item id=%d comes after id=%d although one goroutine submitted them in order (events and raw writes alike)", policy, e.Name(), id, last)
+				}
+				last = id
+			}
+			_ = os.Remove(filepath.Join(base, e.Name()))
+		}
 	})
 }
+
+func asyncHandleWrite(b []byte) (int, error) { return c06Handle.Write(b) }
+
+var c06Handle *log.LoggerWrapper
